@@ -69,6 +69,7 @@ pub assume_specification<'a> [<&'a str as PartialEq<String>>::eq] (a: &&'a str, 
     ensures r == (a@ == b@);
 
 /// stand-in for debversion::ParseError
+#[derive(Debug)]
 pub struct VxVersionParseError;
 impl VxDisplay for VxVersionParseError {
     uninterp spec fn display_spec(&self) -> Seq<char>;
